@@ -228,6 +228,122 @@ theorem sim_hist {W : Nat} (txs : List (Tx V)) : ∀ {m m' : M V} {rss : List (L
         · rw [b2, a2]
         · rw [b4, a4]; simp only [List.length_cons]; omega
 
+/-! ### the single-cell buffer (virtual inventory) is cell 0 of the multi-cell one -/
+
+theorem proj0_embed (v : VI V) : proj0 (embed0 v) = v := rfl
+
+theorem proj0_dirty (m : M V) : viDirty (proj0 m) = dirty m 0 := rfl
+
+theorem proj0_read (m : M V) : viRead (proj0 m) = read m 0 := rfl
+
+theorem proj0_begin (W : Nat) (m : M V) : (begin W m).map proj0 = viBegin W (proj0 m) := by
+  unfold begin viBegin
+  by_cases h : m.rev + 1 < 2 ^ W
+  · simp [h, proj0]
+  · simp [h, proj0]
+
+theorem proj0_write (m : M V) (f : V → V) : proj0 (write m 0 f) = viWrite (proj0 m) f := by
+  unfold viWrite
+  rw [proj0_dirty]
+  have hc := write_cells_same m 0 f
+  have hs := write_store m 0 f
+  have hr := write_rev m 0 f
+  by_cases h : dirty m 0 = true
+  · have hrev : (m.cells 0).rev = m.rev := by simpa [dirty] using h
+    simp only [h, if_true]
+    simp only [proj0, hc, hs, hr, read, h, if_true, hrev]
+  · simp only [h, Bool.false_eq_true, if_false]
+    simp only [proj0, hc, hs, hr, read, h, Bool.false_eq_true, if_false]
+
+theorem proj0_commit (m : M V) : proj0 (commit m) = viCommit (proj0 m) := by
+  unfold viCommit
+  rw [proj0_dirty]
+  by_cases h : dirty m 0 = true
+  · simp [h, proj0, commit]
+  · simp [h, proj0, commit]
+
+theorem proj0_runActs (acts : List (VAct V)) : ∀ (m : M V),
+    (proj0 (runActs m (acts.map VAct.lift)).1, (runActs m (acts.map VAct.lift)).2) = viRunActs (proj0 m) acts := by
+  induction acts with
+  | nil => intro m; rfl
+  | cons a as ih =>
+    intro m
+    cases a with
+    | read =>
+      simp only [List.map_cons, VAct.lift, runActs, viRunActs]
+      have := ih m
+      rw [← this, proj0_read]
+    | write f =>
+      simp only [List.map_cons, VAct.lift, runActs, viRunActs]
+      rw [← proj0_write]; exact ih _
+
+theorem proj0_finish (m : M V) (fin : End) : proj0 (finish m fin) = viFinish (proj0 m) fin := by
+  cases fin
+  · exact proj0_commit m
+  · rfl
+
+/-- lift a single-cell operation to the multi-cell buffer (everything on kind 0) -/
+def liftTx (t : List (VAct V) × End) : Tx V := ⟨t.1.map VAct.lift, t.2⟩
+
+theorem proj0_runTx (W : Nat) (m : M V) (acts : List (VAct V)) (fin : End) :
+    (runTx W m (liftTx (acts, fin))).map (fun r => (proj0 r.1, r.2)) = viRunTx W (proj0 m) acts fin := by
+  unfold runTx viRunTx
+  rw [← proj0_begin]
+  cases hb : begin W m with
+  | none => rfl
+  | some m1 =>
+    simp only [Option.map_some, liftTx]
+    have := proj0_runActs acts m1
+    rw [← this, proj0_finish]
+
+theorem proj0_runHist (W : Nat) (txs : List (List (VAct V) × End)) : ∀ (m : M V),
+    (runHist W m (txs.map liftTx)).map (fun r => (proj0 r.1, r.2)) = viRunHist W (proj0 m) txs := by
+  induction txs with
+  | nil => intro m; rfl
+  | cons t ts ih =>
+    intro m
+    obtain ⟨acts, fin⟩ := t
+    simp only [List.map_cons, runHist, viRunHist]
+    rw [← proj0_runTx]
+    cases ht : runTx W m (liftTx (acts, fin)) with
+    | none => rfl
+    | some p =>
+      obtain ⟨m1, rs⟩ := p
+      simp only [Option.map_some]
+      rw [← ih m1]
+      cases runHist W m1 (ts.map liftTx) with
+      | none => rfl
+      | some q => rfl
+
+theorem inv_embed0 (v : VI V) (h : v.cell.rev ≤ v.rev) : Inv (embed0 v) := fun _ => h
+
+/-- the single-cell buffer refines the transactional map (instance of the generic theorem) -/
+theorem vi_sim_hist {W : Nat} (txs : List (List (VAct V) × End)) (v v' : VI V) (rss : List (List V))
+    (hi : v.cell.rev ≤ v.rev) (h : viRunHist W v txs = some (v', rss)) :
+    rss = (specHist (fun _ => v.store.val) (txs.map liftTx)).2 ∧
+    v'.store.val = (specHist (fun _ => v.store.val) (txs.map liftTx)).1 0 ∧
+    v'.cell.rev ≤ v'.rev ∧ v'.rev = v.rev + txs.length := by
+  have hp := proj0_runHist W txs (embed0 v)
+  rw [proj0_embed, h] at hp
+  cases hr : runHist W (embed0 v) (txs.map liftTx) with
+  | none => rw [hr] at hp; cases hp
+  | some q =>
+    obtain ⟨m', rss'⟩ := q
+    rw [hr] at hp
+    simp only [Option.map_some, Option.some.injEq, Prod.mk.injEq] at hp
+    obtain ⟨hv, hrs⟩ := hp
+    obtain ⟨a1, a2, a3, a4⟩ := sim_hist (txs.map liftTx) (inv_embed0 v hi) hr
+    subst hrs
+    have habs : abs (embed0 v) = fun _ => v.store.val := rfl
+    rw [habs] at a1 a2
+    refine ⟨a1, ?_, ?_, ?_⟩
+    · rw [← hv, ← a2]; rfl
+    · rw [← hv]; exact a3 0
+    · rw [← hv]; simp only [proj0]; rw [a4]; simp [embed0]
+
+/-- liquidity-market counters stay within `u64`; the pending burn never exceeds the real supply -/
+def LMInv (l : LM) : Prop := l.supply + l.toMint < U64 ∧ l.toBurn ≤ l.supply
+
 /-- concrete state for the non-vacuity examples: payload `Int`, all zero, counter 1 as after `init` -/
 def m0 : M Int := ⟨1, fun _ => ⟨0, 0⟩, fun _ => ⟨0, 0⟩⟩
 def w5 : Act Int := .write 3 (fun v => v + 5)
